@@ -6,7 +6,7 @@ use crate::model::{
     graph::{
         inlines_to_markdown, GraphBlock, GraphInline, GraphInlines,
     },
-    is_ref_url, Level,
+    is_ref_url, ref_url, Level,
 };
 use crate::model::config::MarkdownOptions;
 use crate::model::node::ColumnAlignment;
@@ -183,10 +183,16 @@ impl MarkdownWriter {
                         events.extend(self.inlines_to_events(inlines));
                         events.push(Event::End(TagEnd::Link));
                     } else {
+                        // links in table cells are written without the configured extension
+                        let dest_url = if is_ref_url(&url) {
+                            ref_url(&url, "")
+                        } else {
+                            url
+                        };
                         events.push(Event::Start(Tag::Link {
                             title: title.into(),
                             link_type: link_type(t),
-                            dest_url: url.into(),
+                            dest_url: dest_url.into(),
                             id: "".into(),
                         }));
                         events.extend(self.inlines_to_events(inlines));
